@@ -10,9 +10,10 @@ import (
 
 // flatKV is one decoded attribute leaf: dotted key and the decoded value text.
 type flatKV struct {
-	Key  string
-	Text string
-	Raw  string
+	Key    string
+	Text   string
+	Raw    string
+	Quoted bool
 }
 
 type decoded struct {
@@ -50,7 +51,7 @@ func flattenNode(prefix string, n *oracle.Node, out *[]flatKV, skip map[string]b
 			flattenNode(k, m.Val, out, nil)
 			continue
 		}
-		*out = append(*out, flatKV{k, nodeText(m.Val), m.Val.Brief()})
+		*out = append(*out, flatKV{k, nodeText(m.Val), m.Val.Brief(), m.Val.Kind == oracle.JStr})
 	}
 }
 
@@ -130,7 +131,7 @@ func decodeRecord(f Format, payload []byte, named, caller bool) (*decoded, error
 			if !p.HasKey {
 				k = "<no-key>"
 			}
-			d.Attrs = append(d.Attrs, flatKV{k, p.Val, p.Raw})
+			d.Attrs = append(d.Attrs, flatKV{k, p.Val, p.Raw, p.Quoted})
 		}
 		return d, nil
 	default:
@@ -190,7 +191,7 @@ func decodeRecord(f Format, payload []byte, named, caller bool) (*decoded, error
 			if !p.HasKey {
 				k = "<no-key>"
 			}
-			d.Attrs = append(d.Attrs, flatKV{k, p.Val, p.Raw})
+			d.Attrs = append(d.Attrs, flatKV{k, p.Val, p.Raw, p.Quoted})
 		}
 		if nl+1 < len(text) {
 			d.Msg += text[nl:]
